@@ -189,6 +189,13 @@ pub fn garbage_specs(th: bool) -> Vec<ExpSpec> {
             v.push(ExpSpec::new(c, garbage_alphabet(), if th { 3 } else { 2 }));
         }
     }
+    // used media with clusters above 32 KiB (legal, the library only warns): 64 KiB as 128 x 512 and as 16 x 4096 bytes
+    // (a zero-fill through a bounded scratch buffer must still cover the whole cluster)
+    for (ft, bps, spc) in [(FatType::Fat12, 512u16, 128u32), (FatType::Fat16, 4096, 16)] {
+        if let Some(c) = garbage_cfg(ft, bps, spc) {
+            v.push(ExpSpec::new(c, garbage_alphabet(), if th { 3 } else { 2 }));
+        }
+    }
     v
 }
 
